@@ -36,6 +36,26 @@ Theorem C05_valueless_time_rejected :
 Proof. exact valueless_time_rejected. Qed.
 Print Assumptions C05_valueless_time_rejected.
 
+(* Serialising is stable: whatever the cache state a message built from fields starts in (empty), every
+   later str() returns the string the first one returned, which is serialize m -- tags included; so every
+   serialisation of a well-formed message parses back to it, not only the first (the cache shape of
+   IrcMsg.__str__ is pinned by the regenerated table T05). *)
+Theorem C05_str_stable :
+  forall m, let r1 := str_cached m None in let r2 := str_cached m (snd r1) in
+  fst r1 = serialize m /\ fst r2 = serialize m /\ snd r2 = snd r1.
+Proof. intro m. unfold str_cached. cbn. destruct gen.T05.STR_CACHES_RETURNED_STRING; cbn; auto. Qed.
+Print Assumptions C05_str_stable.
+
+Theorem C05_every_serialisation_parses_back :
+  forall (vt : str -> bool) (m : msg) c, wf vt m = true ->
+  (c = None \/ c = snd (str_cached m None)) -> parse vt (fst (str_cached m c)) = Ok (norm m).
+Proof.
+  intros vt m c Hwf [Hc|Hc]; subst c.
+  - cbn. apply parse_serialize; exact Hwf.
+  - unfold str_cached. destruct gen.T05.STR_CACHES_RETURNED_STRING; cbn; apply parse_serialize; exact Hwf.
+Qed.
+Print Assumptions C05_every_serialisation_parses_back.
+
 (* Re-serialising a parsed line gives back that line (the parser only ever
    appends the missing final LF). *)
 Theorem C05_reserialize :
